@@ -128,7 +128,7 @@ def comp_reps(arch) -> Dict[int, int]:
 
 # ------------------------------------------------------------------ random generator (same grammar, larger)
 def random_arch(rng: random.Random, *, dim: int, max_nodes: int, widths=(2, 3, 4, 6), kernels=(1, 2, 3, 5),
-                allow_excl=False, allow_findings=False, strided=True) -> Dict[str, Any]:
+                allow_excl=False, allow_findings=False, strided=True, reuse=True) -> Dict[str, Any]:
     c0 = rng.choice([1, 2, 3])
     sp = rng.choice([4, 6, 8]) if dim == 1 else rng.choice([4, 6])
     nodes: List[Dict[str, Any]] = []
@@ -144,8 +144,9 @@ def random_arch(rng: random.Random, *, dim: int, max_nodes: int, widths=(2, 3, 4
         used = {p for nd in nodes for p in nd["ins"]}
         fresh = [t for t in T if t not in used]
         pick = lambda cand: rng.choice([t for t in cand if t in fresh] or cand)
-        kind = rng.choices(["conv", "dw", "lin", "relu", "pool", "flat", "add", "cat", "catt"],
-                           weights=[6, 2, 3 if fl else 0, 3, 1, 1.5 if nf else 0, 2, 2, 0.7 if dim == 1 else 0])[0]
+        kind = rng.choices(["conv", "dw", "lin", "relu", "pool", "flat", "add", "cat", "catt", "reuse"],
+                           weights=[6, 2, 3 if fl else 0, 3, 1, 1.5 if nf else 0, 2, 2, 0.7 if dim == 1 else 0,
+                                    0.8 if reuse else 0])[0]
         if kind == "conv" and nf:
             k = rng.choice(kernels) if dim == 1 else rng.choice([1, 3])
             s = rng.choice([1, 1, 1, 2]) if strided else 1
@@ -160,6 +161,24 @@ def random_arch(rng: random.Random, *, dim: int, max_nodes: int, widths=(2, 3, 4
         elif kind == "lin" and fl:
             nodes.append({"op": "lin", "ins": [pick(fl)], "out": rng.choice(widths), "bias": rng.random() < 0.7,
                           "bn": rng.random() < 0.3, "excl": allow_excl and rng.random() < 0.15})
+        elif kind == "reuse":
+            # weight-shared residual block:  h' = relu(B(h)) + h ;  h'' = relu(B(h')) + h'
+            c = [t for t in nf if t != 0 and sh[t]["ch"] <= 6]
+            if c and len(nodes) + 6 <= max_nodes + 4:
+                h = pick(c)
+                w = sh[h]["ch"]
+                k = rng.choice([1, 3]) if dim == 2 else rng.choice([1, 2, 3, 5])
+                b = len(nodes) + 1
+                blk = {"op": "conv", "ins": [h], "out": w, "k": k, "d": 1, "s": 1, "bias": rng.random() < 0.7,
+                       "bn": False, "causal": dim == 1}
+                nodes.append(dict(blk))
+                nodes.append({"op": "relu", "ins": [b]})
+                nodes.append({"op": "add", "ins": [b + 1, h]})
+                blk2 = dict(blk)
+                blk2.update({"ins": [b + 2], "reuse": b})
+                nodes.append(blk2)
+                nodes.append({"op": "relu", "ins": [b + 3]})
+                nodes.append({"op": "add", "ins": [b + 4, b + 2]})
         elif kind == "relu" and len(T) > 1:
             nodes.append({"op": "relu", "ins": [pick(T[1:])]})
         elif kind == "pool":
